@@ -10,7 +10,7 @@ import (
 
 func NewEncoder(wr io.Writer, cfg EncodeOptions) *Encoder {
 	return &Encoder{
-		wr:    wr,
+		wr:    &stickyErrWriter{w: wr},
 		cfg:   cfg,
 		stack: make([]phase, 0, 10),
 	}
@@ -20,13 +20,33 @@ func (d *Encoder) Reset() {
 	d.stack = d.stack[0:0]
 	d.current = phase_anyExpectValue
 	d.some = false
+	d.wr.err = nil
+}
+
+// stickyErrWriter remembers the first error (or short write) of the underlying
+// writer, so that Step can report it: the encoder's many small writes do not
+// check their results individually.
+type stickyErrWriter struct {
+	w   io.Writer
+	err error
+}
+
+func (z *stickyErrWriter) Write(bs []byte) (int, error) {
+	n, err := z.w.Write(bs)
+	if err == nil && n < len(bs) {
+		err = io.ErrShortWrite
+	}
+	if err != nil && z.err == nil {
+		z.err = err
+	}
+	return n, err
 }
 
 /*
 	A json.Encoder is a TokenSink implementation that emits json bytes.
 */
 type Encoder struct {
-	wr  io.Writer
+	wr  *stickyErrWriter
 	cfg EncodeOptions
 
 	// Stack, tracking how many array and map opens are outstanding.
@@ -49,6 +69,14 @@ const (
 )
 
 func (d *Encoder) Step(tok *Token) (done bool, err error) {
+	done, err = d.step(tok)
+	if err == nil {
+		err = d.wr.err // a failed or short write of the underlying writer
+	}
+	return done, err
+}
+
+func (d *Encoder) step(tok *Token) (done bool, err error) {
 	switch d.current {
 	case phase_anyExpectValue:
 		switch tok.Type {
